@@ -499,9 +499,19 @@ func readErrSig(w *World, api string, err error, cfKey ...[]byte) map[string]str
 	// (a read can then follow a shadowed or tie-losing copy - known defects),
 	// or is the only copy of the key unreadable?
 	if len(cfKey) == 2 && w.DB != nil {
-		sig["competing_copies"] = "no"
-		if len(w.DB.VerifLocate(kv.ColumnFamily(cfKey[0][0]), cfKey[1])) >= 2 {
+		sig["competing_copies"], sig["equal_version_tie"] = "no", "no"
+		cps := w.DB.VerifLocate(kv.ColumnFamily(cfKey[0][0]), cfKey[1])
+		if len(cps) >= 2 {
 			sig["competing_copies"] = "yes"
+		}
+		below := map[uint64]int{}
+		for _, cp := range cps {
+			if wh := Where(cp); wh == "Ln" || wh == "Ln-ingest" {
+				below[cp.Version]++
+				if below[cp.Version] >= 2 {
+					sig["equal_version_tie"] = "yes" // two equal-version copies below L0 (known tie defect, C01)
+				}
+			}
 		}
 	}
 	if strings.Contains(err.Error(), "value log file") || strings.Contains(err.Error(), "not found") {
